@@ -76,7 +76,8 @@ def header_program(rnd, names, salt, order, comments=0):
     s = f"salt: {render_lit(Lit(salt, salt), rnd)} " if salt is not None else ""
     n = rnd.choice([2, 2, 3, 5, 10])
     ws = [rnd.choice(["1", "1", "2", "3", "10"]) for _ in range(n)]
-    groups = ", ".join(f'"g{i}" weighted {w}' for i, w in enumerate(ws))
+    rep = n >= 3 and rnd.random() < 0.3  # control / treatment / control: each *position* owns its segment of the weight line
+    groups = ", ".join(f'"g{i % 2 if rep else i}" weighted {w}' for i, w in enumerate(ws))
     if comments == 1:
         # a header annotated the way people annotate configuration: several block comments on the line of each clause
         s2 = f'/* was "v1" */ {s}/* bumped */ ' if s else "/* no salt */ /* yet */ "
